@@ -791,6 +791,10 @@ func (vfs *OrefaFS) Rename(oldname, newname string) error {
 		return &os.LinkError{Op: op, Old: oldname, New: newname, Err: vfs.err.NoSuchFile}
 	}
 
+	if !nParent.mode.IsDir() {
+		return &os.LinkError{Op: op, Old: oldname, New: newname, Err: vfs.err.NotADirectory}
+	}
+
 	if (oChild.mode.IsDir() && nChildOk) || (!oChild.mode.IsDir() && nChildOk && nChild.mode.IsDir()) {
 		err := vfs.err.FileExists
 		if vfs.OSType() == avfs.OsWindows {
@@ -808,7 +812,7 @@ func (vfs *OrefaFS) Rename(oldname, newname string) error {
 		defer oParent.mu.Unlock()
 	}
 
-	nParent.children[nFileName] = oChild
+	nParent.addChild(nFileName, oChild)
 
 	delete(oParent.children, oFileName)
 
